@@ -3,6 +3,7 @@ use crate::report::Report;
 use std::time::Duration;
 
 pub mod c01;
+pub mod c02;
 
 pub trait Check: UnitRunner {
   fn id(&self) -> &'static str;
@@ -16,6 +17,7 @@ pub trait Check: UnitRunner {
 pub fn make(id: &str, tier: Tier) -> Option<Box<dyn Check>> {
   match id {
     "C01" => Some(Box::new(c01::C01::new(tier))),
+    "C02" => Some(Box::new(c02::C02::new(tier))),
     _ => None,
   }
 }
